@@ -24,7 +24,8 @@ Events (tuples of primitives, JSON-able):
 S, P, F, Q = "S", "P", "F", "Q"
 FAIL_CAP = 10
 SIG_VARIANTS = ("probe", "valid", "other-session", "alt-username", "alt-service", "alt-method",
-                "alt-algorithm", "alt-keyblob", "sigbit", "wrong-key")
+                "alt-algorithm", "alt-keyblob", "sigbit", "wrong-key", "replayed")
+# "replayed": a genuine request recorded verbatim in another session (signed by the real client code)
 
 
 def tup(ev):
